@@ -12,6 +12,8 @@ package forwarder
 import (
 	"bytes"
 	"context"
+	"crypto/tls"
+	"encoding/base64"
 	"errors"
 	"fmt"
 	"net"
@@ -250,4 +252,27 @@ func vfH_C19_debug_log() {
 			vfrt.Assert(l1[i] == l2[i], "debug-log/lines-independent-of-the-upstream-password")
 		}
 	}
+}
+
+//vf:assume C19-keypair-errors: key material given inline: loadX509KeyPair with a certificate and a key as data:base64 values, the key being 3 / 6 symbolic bytes; tls.X509KeyPair is replaced by a stub that rejects every pair with one of its fixed messages (the real messages are constants of crypto/tls and never contain input bytes: stated, not checked), so this harness is model-only; the start-up error returned for two keys that differ must be the same text
+
+func vfStubX509KeyPair(certPEMBlock, keyPEMBlock []byte) (tls.Certificate, error) {
+	return tls.Certificate{}, errors.New("tls: private key does not match public key")
+}
+
+//vf:override crypto/tls.X509KeyPair = vfStubX509KeyPair
+
+//vf:harness property=C19 nopanic modelonly reach=keypair-error steps=4000000
+func vfH_C19_keypair_errors() {
+	n := 3 * (1 + vfrt.Choice("key-len", 2))
+	k1, k2 := vfrt.Bytes("key-1", n), vfrt.Bytes("key-2", n)
+	cert := "data:base64," + base64.StdEncoding.EncodeToString([]byte("certificate"))
+	_, e1 := loadX509KeyPair(cert, "data:base64,"+base64.StdEncoding.EncodeToString(k1))
+	_, e2 := loadX509KeyPair(cert, "data:base64,"+base64.StdEncoding.EncodeToString(k2))
+	vfrt.Assert(e1 != nil && e2 != nil, "keypair-errors/rejected-pair-is-an-error")
+	if e1 == nil || e2 == nil {
+		return
+	}
+	vfrt.Reach("keypair-error")
+	vfrt.Assert(e1.Error() == e2.Error(), "keypair-errors/start-up-error-text-independent-of-the-inline-key")
 }
